@@ -14,7 +14,17 @@
 (*    components a document must define are the @declarations it uses.     *)
 (* The abstract document is a set of path items; schemas are uniform       *)
 (* records [t, n, fl, kids].                                               *)
-(* Annotations are not part of this fragment.                              *)
+(* Annotations: every expression is evaluated with the annotations that   *)
+(* reach it from outside (I); the annotations written on the term itself   *)
+(* win over them; a use of a declared name passes its annotations on to    *)
+(* the declaration's right-hand side, where they win over the annotations  *)
+(* written on the declaration line; a use of a parameter evaluates the     *)
+(* argument expression as if it were written in place (call by name, with  *)
+(* the annotations of the use site reaching it); components of a           *)
+(* construct start with no annotations.  Each construct takes the keys     *)
+(* that have a place in an OpenAPI document: schemas description, title    *)
+(* and the facets of their type; properties description and required;      *)
+(* contents description; transfers description, summary, tags, operationId.*)
 (***************************************************************************)
 EXTENDS Binding
 
@@ -22,7 +32,27 @@ CONSTANTS K,          \* structural depth up to which schemas are unfolded
           MaxHops     \* bound on consecutive reference hops without structure (alias chains)
 
 \* ---- abstract schemas ---------------------------------------------------------------------
-Sch(t, n, fl, kids) == [t |-> t, n |-> n, fl |-> fl, kids |-> kids]
+Sch(t, n, fl, kids) == [t |-> t, n |-> n, fl |-> fl, kids |-> kids, an |-> <<>>]
+
+\* ---- annotations: sequences of [key, val, ty]; a later entry of the same key wins ---------------
+AKeys(a) == {a[i].key : i \in 1..Len(a)}
+AExt(base, over) == SelectSeq(base, LAMBDA e : e.key \notin AKeys(over)) \o over        \* `over` wins
+RECURSIVE ADedup(_)
+ADedup(a) == IF a = <<>> THEN <<>> ELSE AExt(<<a[1]>>, ADedup(Tail(a)))                  \* the last entry of a key stands
+\* the annotations written on a node: line annotations first, then the inline one
+Own(nd) == LET norm(e) == [key |-> e.key, val |-> e.val, ty |-> e.ty] IN
+           ADedup([i \in 1..Len(SelectSeq(nd.ann, LAMBDA e : e.w = "line")) |-> norm(SelectSeq(nd.ann, LAMBDA e : e.w = "line")[i])]
+                  \o [i \in 1..Len(SelectSeq(nd.ann, LAMBDA e : e.w # "line")) |-> norm(SelectSeq(nd.ann, LAMBDA e : e.w # "line")[i])])
+AHas(a, k) == k \in AKeys(a)
+AGet(a, k) == (CHOOSE i \in 1..Len(a) : a[i].key = k /\ \A j \in (i + 1)..Len(a) : a[j].key # k)
+AVal(a, k) == IF AHas(a, k) THEN a[AGet(a, k)].val ELSE ""
+Pick(a, keys) == SelectSeq(a, LAMBDA e : e.key \in keys)
+SchemaKeys(t) ==
+  {"description", "title", "required"} \cup
+  (CASE t \in {"number", "integer"} -> {"minimum", "maximum", "multipleOf", "example"}
+     [] t = "string" -> {"pattern", "enum", "format", "example", "minLength", "maxLength"}
+     [] OTHER -> {})
+WithAn(s, J) == [s EXCEPT !.an = Pick(J, SchemaKeys(s.t))]
 Cut == Sch("...", "", 0, <<>>)
 Leaf(t) == Sch(t, "", 0, <<>>)
 PropS(name, req, s) == Sch("prop", name, req, <<s>>)
@@ -33,24 +63,27 @@ VProp(p)    == [vk |-> "prop", s |-> p]                               \* p: a Pr
 VText(x)    == [vk |-> "text", x |-> x]
 VNum(x)     == [vk |-> "num", x |-> x]
 VStatus(x)  == [vk |-> "status", x |-> x]
-VUri(segs, params) == [vk |-> "uri", segs |-> segs, params |-> params]  \* segs: seq of [k, n, s]; params: seq of PropS
+VUriA(segs, params, an) == [vk |-> "uri", segs |-> segs, params |-> params, an |-> an]  \* segs: seq of [k, n, s]; params: seq of PropS
+VUri(segs, params) == VUriA(segs, params, <<>>)
 VContent(c) == [vk |-> "content", c |-> c]                              \* c: [body (seq of 0/1 schema), status, media, headers]
 VRanges(cs) == [vk |-> "ranges", cs |-> cs]
 VXfer(x)    == [vk |-> "xfer", x |-> x]                                 \* [methods, params, domain (seq 0/1 content), ranges]
-VRel(u, xs) == [vk |-> "rel", u |-> u, xs |-> xs]
+VRelA(u, xs, an) == [vk |-> "rel", u |-> u, xs |-> xs, an |-> an]
+VRel(u, xs) == VRelA(u, xs, <<>>)
 VFun(m, p)  == [vk |-> "fun", m |-> m, p |-> p]
 VConcat     == [vk |-> "concat"]
 VNamed(name, u) == [vk |-> "named", s |-> Sch("ref", name, 0, <<>>), u |-> u]   \* an explicit reference and the value it stands for
 VBottom(w)  == [vk |-> "bottom", w |-> w]                               \* outside the fragment / ill-kinded
 
-Content(body, status, media, headers) == [body |-> body, status |-> status, media |-> media, headers |-> headers]
+ContentA(body, status, media, headers, desc) == [body |-> body, status |-> status, media |-> media, headers |-> headers, desc |-> desc]
+Content(body, status, media, headers) == ContentA(body, status, media, headers, "")
 
 \* a value used where a schema is expected
 \* where a schema is wanted an explicit reference stays a reference; elsewhere it is the value it names
 Und(v) == IF v.vk = "named" THEN v.u ELSE v
 AsSchema(v) ==
   CASE v.vk \in {"schema", "named"} -> v.s
-    [] v.vk \in {"uri", "rel"} -> Leaf("uri")
+    [] v.vk \in {"uri", "rel"} -> WithAn(Leaf("uri"), v.an)
     [] OTHER -> Sch("BOTTOM", v.vk, 0, <<>>)
 AsContent(v) == IF v.vk = "content" THEN v.c ELSE Content(<<AsSchema(v)>>, "", "", <<>>)
 AsRanges(v) == IF v.vk = "ranges" THEN v.cs ELSE <<AsContent(v)>>
@@ -60,17 +93,17 @@ RECURSIVE LastWins(_, _)
 LastWins(cs, i) ==
   IF i > Len(cs) THEN <<>>
   ELSE (IF \E j \in (i + 1)..Len(cs) : cs[j].status = cs[i].status /\ cs[j].media = cs[i].media THEN <<>> ELSE <<cs[i]>>) \o LastWins(cs, i + 1)
-AsUri(v) == LET w == Und(v) IN IF w.vk = "rel" THEN w.u ELSE IF w.vk = "uri" THEN w ELSE VUri(<<[k |-> "lit", n |-> "BOTTOM", s |-> Cut]>>, <<>>)
+SegLit(n) == [k |-> "lit", n |-> n, s |-> Cut, d |-> ""]
+SegVar(p) == [k |-> "var", n |-> p.n, s |-> p.kids[1], d |-> AVal(p.an, "description")]
+AsUri(v) == LET w == Und(v) IN IF w.vk = "rel" THEN w.u ELSE IF w.vk = "uri" THEN w ELSE VUri(<<SegLit("BOTTOM")>>, <<>>)
 AsProps(v) == LET w == Und(v) IN IF w.vk = "schema" /\ w.s.t = "object" THEN w.s.kids ELSE <<>>
 
-SegLit(n) == [k |-> "lit", n |-> n, s |-> Cut]
-SegVar(p) == [k |-> "var", n |-> p.n, s |-> p.kids[1]]
 
 \* concat: the trailing empty segment of the left URI is dropped; parameters are the right URI's
 Concat(l, r) ==
   LET ls == IF l.segs # <<>> /\ l.segs[Len(l.segs)].k = "lit" /\ l.segs[Len(l.segs)].n = ""
             THEN SubSeq(l.segs, 1, Len(l.segs) - 1) ELSE l.segs
-  IN VUri(ls \o r.segs, r.params)
+  IN VUriA(ls \o r.segs, r.params, r.an)
 
 \* ---- environments: sequence of frames [b: binder, kind: "thunk" | "rec", m, p, env] -------------
 Frame(b, kind, m, p, env) == [b |-> b, kind |-> kind, m |-> m, p |-> p, env |-> env]
@@ -83,46 +116,54 @@ NodeOf(prog, m, p) ==
       Go(nd, i) == IF i > Len(p) THEN nd ELSE Go(nd.a[p[i]], i + 1)
   IN Go(prog.mods[m][p[1]], 2)
 
-\* D(prog, tables, m, p, env, d, h): the value of the expression at path p of module m;
-\* d: structural depth so far; h: reference hops since the last structure
-RECURSIVE D(_, _, _, _, _, _, _)
-D(prog, tables, m, p, env, d, h) ==
+\* D(prog, tables, m, p, env, d, h, I): the value of the expression at path p of module m;
+\* d: structural depth so far; h: reference hops since the last structure; I: the annotations reaching the expression
+RECURSIVE D(_, _, _, _, _, _, _, _)
+D(prog, tables, m, p, env, d, h, I) ==
   LET nd == NodeOf(prog, m, p)
-      sub(i, dd) == D(prog, tables, m, Append(p, i), env, dd, IF dd > d THEN 0 ELSE h)     \* hops are reset by structure only
+      J == AExt(I, Own(nd))                                                                   \* what is written on the term wins
+      sub(i, dd) == D(prog, tables, m, Append(p, i), env, dd, IF dd > d THEN 0 ELSE h, <<>>)     \* hops are reset by structure only
       schemaAt(i) == IF d >= K THEN Cut ELSE AsSchema(sub(i, d + 1))
+      xferBottom == [methods |-> "BOTTOM", params |-> <<>>, domain |-> <<>>, ranges |-> <<>>, desc |-> "", summary |-> "", tags |-> "", id |-> ""]
   IN
-  CASE nd.k = "prim" -> IF nd.s = "uri" THEN VUri(<<>>, <<>>)
-                        ELSE VSchema(Leaf(CASE nd.s = "num" -> "number" [] nd.s = "str" -> "string" [] nd.s = "bool" -> "boolean" [] OTHER -> "integer"))
+  CASE nd.k = "prim" -> IF nd.s = "uri" THEN VUriA(<<>>, <<>>, J)
+                        ELSE VSchema(WithAn(Leaf(CASE nd.s = "num" -> "number" [] nd.s = "str" -> "string" [] nd.s = "bool" -> "boolean" [] OTHER -> "integer"), J))
     [] nd.k = "lit" -> CASE nd.s = "num" -> VNum(nd.q) [] nd.s = "str" -> VText(nd.q) [] OTHER -> VStatus(nd.q)
     [] nd.k = "obj" ->
-         VSchema(Sch("object", "", 0, [j \in 1..Len(nd.a) |->
-                       LET v == sub(j, d) IN IF v.vk = "prop" THEN v.s ELSE PropS("BOTTOM", 0, Cut)]))
-    [] nd.k = "prop" -> VProp(PropS(nd.s, IF nd.n = 1 THEN 1 ELSE 0, schemaAt(1)))
+         VSchema(WithAn(Sch("object", "", 0, [j \in 1..Len(nd.a) |->
+                       LET v == sub(j, d) IN IF v.vk = "prop" THEN v.s ELSE PropS("BOTTOM", 0, Cut)]), J))
+    [] nd.k = "prop" ->
+         \* required: the annotation, else the mark, else a `required` annotation of the value's schema
+         LET sc == schemaAt(1)
+             fl == IF AHas(J, "required") THEN (IF AVal(J, "required") = "true" THEN 1 ELSE 0)
+                   ELSE IF nd.n = 1 THEN 1 ELSE IF nd.n = 2 THEN 0
+                   ELSE IF AVal(sc.an, "required") = "true" THEN 1 ELSE 0
+         IN VProp([PropS(nd.s, fl, sc) EXCEPT !.an = Pick(J, {"description"})])
     [] nd.k = "un" -> LET v == Und(sub(1, d)) IN
                       IF v.vk = "prop" THEN VProp([v.s EXCEPT !.fl = IF nd.s = "!" THEN 1 ELSE 0]) ELSE VBottom("un")
-    [] nd.k = "arr" -> VSchema(Sch("array", "", 0, <<schemaAt(1)>>))
+    [] nd.k = "arr" -> VSchema(WithAn(Sch("array", "", 0, <<schemaAt(1)>>), J))
     [] nd.k = "op" ->
          IF nd.s = "::"
          THEN LET RECURSIVE Cat(_)
                   Cat(j) == IF j > Len(nd.a) THEN <<>> ELSE AsRanges(sub(j, d)) \o Cat(j + 1)
               IN VRanges(Cat(1))
-         ELSE VSchema(Sch(CASE nd.s = "&" -> "allOf" [] nd.s = "~" -> "anyOf" [] OTHER -> "oneOf", "", 0,
-                          [j \in 1..Len(nd.a) |-> schemaAt(j)]))
+         ELSE VSchema(WithAn(Sch(CASE nd.s = "&" -> "allOf" [] nd.s = "~" -> "anyOf" [] OTHER -> "oneOf", "", 0,
+                                 [j \in 1..Len(nd.a) |-> schemaAt(j)]), J))
     [] nd.k = "cnt" ->
          LET meta(t) == {j \in 1..nd.n : nd.a[j].s = t}
-             mval(t) == D(prog, tables, m, Append(Append(p, CHOOSE j \in meta(t) : \A j2 \in meta(t) : j2 <= j), 1), env, d, 0)
+             mval(t) == D(prog, tables, m, Append(Append(p, CHOOSE j \in meta(t) : \A j2 \in meta(t) : j2 <= j), 1), env, d, 0, <<>>)
              hasBody == Len(nd.a) > nd.n
              status == IF meta("status") # {} THEN LET v == mval("status") IN (IF v.vk \in {"num", "status"} THEN v.x ELSE "BOTTOM")
                        ELSE IF hasBody THEN "" ELSE "204"
              media == IF meta("media") # {} THEN LET v == mval("media") IN (IF v.vk = "text" THEN v.x ELSE "BOTTOM") ELSE ""
              headers == IF meta("headers") # {} THEN AsProps(mval("headers")) ELSE <<>>
-         IN VContent(Content(IF hasBody THEN <<AsSchema(sub(nd.n + 1, d))>> ELSE <<>>, status, media, headers))
+         IN VContent(ContentA(IF hasBody THEN <<AsSchema(sub(nd.n + 1, d))>> ELSE <<>>, status, media, headers, AVal(J, "description")))
     [] nd.k = "uri" ->
          LET nseg == Len(nd.a) - nd.n IN
-         VUri([j \in 1..nseg |-> IF nd.a[j].k = "seg" THEN SegLit(nd.a[j].s)
-                                  ELSE LET v == D(prog, tables, m, Append(Append(p, j), 1), env, d, 0)
+         VUriA([j \in 1..nseg |-> IF nd.a[j].k = "seg" THEN SegLit(nd.a[j].s)
+                                  ELSE LET v == D(prog, tables, m, Append(Append(p, j), 1), env, d, 0, <<>>)
                                        IN IF v.vk = "prop" THEN SegVar(v.s) ELSE SegLit("BOTTOM")],
-              IF nd.n = 1 THEN AsProps(sub(Len(nd.a), d)) ELSE <<>>)
+               IF nd.n = 1 THEN AsProps(sub(Len(nd.a), d)) ELSE <<>>, J)
     [] nd.k = "xfer" ->
          LET hasP == nd.n \in {1, 3}
              hasD == nd.n \in {2, 3}
@@ -130,13 +171,13 @@ D(prog, tables, m, p, env, d, h) ==
          IN VXfer([methods |-> nd.s,
                    params |-> IF hasP THEN AsProps(sub(1, d)) ELSE <<>>,
                    domain |-> IF hasD THEN <<AsContent(sub(di, d))>> ELSE <<>>,
-                   ranges |-> LastWins(AsRanges(sub(Len(nd.a), d)), 1)])
+                   ranges |-> LastWins(AsRanges(sub(Len(nd.a), d)), 1),
+                   desc |-> AVal(J, "description"), summary |-> AVal(J, "summary"), tags |-> AVal(J, "tags"), id |-> AVal(J, "operationId")])
     [] nd.k = "rel" ->
          LET u == AsUri(sub(1, d)) IN
-         VRel(u, [j \in 1..(Len(nd.a) - 1) |-> LET v == sub(j + 1, d) IN IF v.vk = "xfer" THEN v.x ELSE
-                                                  [methods |-> "BOTTOM", params |-> <<>>, domain |-> <<>>, ranges |-> <<>>]])
+         VRelA(u, [j \in 1..(Len(nd.a) - 1) |-> LET v == sub(j + 1, d) IN IF v.vk = "xfer" THEN v.x ELSE xferBottom], J)
     [] nd.k = "rec" ->
-         D(prog, tables, m, Append(p, 1), Append(env, Frame(B(m, p, "rec"), "rec", m, p, env)), d, h)
+         D(prog, tables, m, Append(p, 1), Append(env, Frame(B(m, p, "rec"), "rec", m, p, env)), d, h, J)
     [] nd.k = "var" ->
          LET b == (CHOOSE r \in tables[m] : r.use = p).b IN
          CASE b.kind = "internal" -> VConcat
@@ -145,15 +186,17 @@ D(prog, tables, m, p, env, d, h) ==
                 IF i = 0 THEN VBottom("unbound")
                 ELSE IF h >= MaxHops THEN VSchema(Cut)
                 ELSE LET f == env[i] IN
-                     IF f.kind = "rec" THEN D(prog, tables, f.m, f.p, f.env, d, h + 1)       \* unfold the rec expression again
-                     ELSE D(prog, tables, f.m, f.p, f.env, d, h + 1)                         \* force the argument thunk
+                     IF f.kind = "rec" THEN D(prog, tables, f.m, f.p, f.env, d, h + 1, <<>>)      \* unfold the rec expression again
+                     ELSE D(prog, tables, f.m, f.p, f.env, d, h + 1, J)                          \* the argument, as if written here
            [] OTHER ->
-                LET dc == prog.mods[b.m][b.p[1]] IN
+                LET dc == prog.mods[b.m][b.p[1]]
+                    I2 == AExt(Own(dc), J)                       \* the use site wins over the declaration line
+                IN
                 IF dc.n > 0 THEN VFun(b.m, b.p)
                 ELSE IF dc.q = "@"
-                THEN VNamed(dc.s, IF h >= MaxHops THEN VSchema(Cut) ELSE D(prog, tables, b.m, <<b.p[1], 1>>, <<>>, d, h + 1))
+                THEN VNamed(dc.s, IF h >= MaxHops THEN VSchema(Cut) ELSE D(prog, tables, b.m, <<b.p[1], 1>>, <<>>, d, h + 1, Own(dc)))
                 ELSE IF h >= MaxHops THEN VSchema(Cut)
-                ELSE D(prog, tables, b.m, <<b.p[1], 1>>, <<>>, d, h + 1)
+                ELSE D(prog, tables, b.m, <<b.p[1], 1>>, <<>>, d, h + 1, I2)
     [] nd.k = "app" ->
          LET f == sub(1, d) IN
          IF Und(f).vk = "concat"
@@ -162,7 +205,7 @@ D(prog, tables, m, p, env, d, h) ==
          THEN LET dc == prog.mods[f.m][f.p[1]]
                   k == IF Len(nd.a) - 1 < dc.n THEN Len(nd.a) - 1 ELSE dc.n
               IN D(prog, tables, f.m, <<f.p[1], dc.n + 1>>,
-                   [j \in 1..k |-> Frame(B(f.m, <<f.p[1], j>>, "param"), "thunk", m, Append(p, j + 1), env)], d, h)
+                   [j \in 1..k |-> Frame(B(f.m, <<f.p[1], j>>, "param"), "thunk", m, Append(p, j + 1), env)], d, h, AExt(Own(dc), J))
          ELSE VBottom("apply")
     [] OTHER -> VBottom(nd.k)
 
@@ -179,11 +222,11 @@ Paths(prog) ==
   LET t == Tables(prog)
       stmts == prog.mods[prog.main]
       rs == SelectSeq([i \in 1..Len(stmts) |-> i], LAMBDA i : stmts[i].k = "res")
-  IN [j \in 1..Len(rs) |-> PathItem(D(prog, t, prog.main, <<rs[j], 1>>, <<>>, 0, 0))]
+  IN [j \in 1..Len(rs) |-> PathItem(D(prog, t, prog.main, <<rs[j], 1>>, <<>>, 0, 0, <<>>))]
 
 \* the explicit components: every @declaration of a module ("get,put" method lists are split by the driver)
 RefDecls(prog) == {x \in [m : DOMAIN prog.mods, i : 1..12] :
                      x.i <= Len(prog.mods[x.m]) /\ prog.mods[x.m][x.i].k = "decl" /\ prog.mods[x.m][x.i].q = "@"}
 Component(prog, x) == [name |-> prog.mods[x.m][x.i].s, m |-> x.m,
-                       schema |-> AsSchema(D(prog, Tables(prog), x.m, <<x.i, 1>>, <<>>, 0, 0))]
+                       schema |-> AsSchema(D(prog, Tables(prog), x.m, <<x.i, 1>>, <<>>, 0, 0, Own(prog.mods[x.m][x.i])))]
 =============================================================================
